@@ -188,6 +188,9 @@ class World:
             return nm
         if nm is None:
             return f"col{i}_"
+        if isinstance(nm, str) and nm.isidentifier() and nm == nm.lower() and names.index(nm) != i and not hasattr(S.Table, nm) \
+                and not nm.endswith("_"):
+            return f"{nm}__{i}"       # a repeated name: the indexed accessor
         return None
 
     # ---- run
@@ -665,6 +668,8 @@ class World:
     # =============================================================== writes
     def _assign_value(self, step, m, kind_hint=None):
         """scalar or list of m values taken from the step payload"""
+        if step[3] % 5 == 0 and step[2] % 2 == 0:
+            return ("scalar", None)          # None writes are common, not exceptional
         if step[5] or m == 0:
             v = self.vals(step, 1)[0]
             return ("scalar", v)
